@@ -259,34 +259,43 @@ func (fm fontSet) selectByFamiliesAndScript(crible familyCrible, script language
 // or, if not found, the closest stretch
 // if always return a valid value (contained in `candidates`) if `candidates` is not empty
 func (fs fontSet) matchStretch(candidates []int, query font.Stretch) font.Stretch {
-	// narrower and wider than the query
-	var narrower, wider font.Stretch
+	// closest narrower and wider than the query
+	var (
+		narrower, wider       font.Stretch
+		hasNarrower, hasWider bool
+	)
 
 	for _, index := range candidates {
 		stretch := fs[index].Aspect.Stretch
 		if stretch > query { // wider candidate
-			if wider == 0 || stretch-query < wider-query { // closer
-				wider = stretch
+			if !hasWider || stretch < wider { // closer
+				wider, hasWider = stretch, true
 			}
 		} else if stretch < query { // narrower candidate
-			// if narrower == 0, it is always more distant to queryStretch than stretch
-			if query-stretch < query-narrower { // closer
-				narrower = stretch
+			if !hasNarrower || stretch > narrower { // closer
+				narrower, hasNarrower = stretch, true
 			}
-		} else {
+		} else if stretch == query {
 			// found an exact match, just return it
 			return query
 		}
 	}
 
+	if !hasNarrower && !hasWider { // only possible for values which do not compare (NaN)
+		if len(candidates) == 0 {
+			return query
+		}
+		return fs[candidates[0]].Aspect.Stretch
+	}
+
 	// default to closest
 	if query <= font.StretchNormal { // narrow first
-		if narrower != 0 {
+		if hasNarrower {
 			return narrower
 		}
 		return wider
 	} else { // wide first
-		if wider != 0 {
+		if hasWider {
 			return wider
 		}
 		return narrower
@@ -303,18 +312,19 @@ func (fs fontSet) matchStyle(candidates []int, query font.Style) font.Style {
 	var crible [font.StyleItalic + 1]bool
 
 	for _, index := range candidates {
-		crible[fs[index].Aspect.Style] = true
+		if style := fs[index].Aspect.Style; int(style) < len(crible) {
+			crible[style] = true
+		}
+	}
+
+	if !crible[font.StyleNormal] && !crible[font.StyleItalic] { // no candidate, or only with invalid styles
+		if len(candidates) == 0 {
+			return query
+		}
+		return fs[candidates[0]].Aspect.Style
 	}
 
 	switch query {
-	case font.StyleNormal: // StyleNormal, StyleOblique, StyleItalic
-		if crible[font.StyleNormal] {
-			return font.StyleNormal
-		} else if crible[styleOblique] {
-			return styleOblique
-		} else {
-			return font.StyleItalic
-		}
 	case font.StyleItalic: // StyleItalic, StyleOblique, StyleNormal
 		if crible[font.StyleItalic] {
 			return font.StyleItalic
@@ -323,9 +333,15 @@ func (fs fontSet) matchStyle(candidates []int, query font.Style) font.Style {
 		} else {
 			return font.StyleNormal
 		}
+	default: // StyleNormal (or an invalid value): StyleNormal, StyleOblique, StyleItalic
+		if crible[font.StyleNormal] {
+			return font.StyleNormal
+		} else if crible[styleOblique] {
+			return styleOblique
+		} else {
+			return font.StyleItalic
+		}
 	}
-
-	panic("should not happen") // query.Style is sanitized by SetDefaults
 }
 
 // matchWeight look for the given weight in the font set,
@@ -333,38 +349,49 @@ func (fs fontSet) matchStyle(candidates []int, query font.Style) font.Style {
 // if always return a valid value (contained in `fs`) if `fs` is not empty
 // we follow https://drafts.csswg.org/css-fonts/#font-style-matching
 func (fs fontSet) matchWeight(candidates []int, query font.Weight) font.Weight {
-	var fatter, thinner font.Weight // approximate match
+	// closest fatter and thinner than the query (approximate match)
+	var (
+		fatter, thinner       font.Weight
+		hasFatter, hasThinner bool
+	)
 	for _, index := range candidates {
 		weight := fs[index].Aspect.Weight
 		if weight > query { // fatter candidate
-			if fatter == 0 || weight-query < fatter-query { // weight is closer to query
-				fatter = weight
+			if !hasFatter || weight < fatter { // weight is closer to query
+				fatter, hasFatter = weight, true
 			}
 		} else if weight < query {
-			if query-weight < query-thinner { // weight is closer to query
-				thinner = weight
+			if !hasThinner || weight > thinner { // weight is closer to query
+				thinner, hasThinner = weight, true
 			}
-		} else {
+		} else if weight == query {
 			// found an exact match, just return it
 			return query
 		}
 	}
 
+	if !hasFatter && !hasThinner { // only possible for values which do not compare (NaN)
+		if len(candidates) == 0 {
+			return query
+		}
+		return fs[candidates[0]].Aspect.Weight
+	}
+
 	// approximate match
 	if 400 <= query && query <= 500 { // fatter until 500, then thinner then fatter
-		if fatter != 0 && fatter <= 500 {
+		if hasFatter && fatter <= 500 {
 			return fatter
-		} else if thinner != 0 {
+		} else if hasThinner {
 			return thinner
 		}
 		return fatter
 	} else if query < 400 { // thinner then fatter
-		if thinner != 0 {
+		if hasThinner {
 			return thinner
 		}
 		return fatter
 	} else { // fatter then thinner
-		if fatter != 0 {
+		if hasFatter {
 			return fatter
 		}
 		return thinner
@@ -380,6 +407,9 @@ func (fs fontSet) filterByStretch(candidates []int, stretch font.Stretch) []int 
 			n++
 		}
 	}
+	if n == 0 { // only possible for values which are not equal to themselves (NaN): keep every candidate
+		return candidates
+	}
 	candidates = candidates[:n]
 	return candidates
 }
@@ -393,6 +423,9 @@ func (fs fontSet) filterByStyle(candidates []int, style font.Style) []int {
 			n++
 		}
 	}
+	if n == 0 { // only possible for values which are not equal to themselves (NaN): keep every candidate
+		return candidates
+	}
 	candidates = candidates[:n]
 	return candidates
 }
@@ -405,6 +438,9 @@ func (fs fontSet) filterByWeight(candidates []int, weight font.Weight) []int {
 			candidates[n] = index
 			n++
 		}
+	}
+	if n == 0 { // only possible for values which are not equal to themselves (NaN): keep every candidate
+		return candidates
 	}
 	candidates = candidates[:n]
 	return candidates
